@@ -1152,3 +1152,33 @@ M("c03-matrix-sum-row-ignores-shared-cells-returns", "C03", MATRICES,
 ''', '''        my_vars = self.matrix.get_variables()
         return [Constant(1.0) if var in my_vars else Constant(0.0) for var in variables]
 ''', "R03.4", "MatrixSum.jacobian_row")
+
+# ----------------------------------------------------------------------------- batch 8 additions
+M("c09-default-maxiter-for-every-method", "C09", SCIPY,
+  '''    options: dict[str, Any] = {}
+    if maxiter is not None:
+        options["maxiter"] = maxiter
+''', '''    options: dict[str, Any] = {"maxiter": maxiter if maxiter is not None else 1000}
+''', "R09.1", "solve_scipy:minimize(options=)")
+M("c11-reflected-operand-admits-length-one", "C11", VECTORS,
+  '''        if len(arr) != size:
+            raise DimensionMismatchError(
+                operation=f"vector {op}",''', '''        if len(arr) not in (1, size):
+            raise DimensionMismatchError(
+                operation=f"vector {op}",''', "R11.2", "_reflected_operands[len==1]")
+M("c12-vector-parameter-set-skips-close-values", "C12", PARAMS,
+  '''        for i, param in enumerate(self._parameters):
+            param.set(val_array[i])
+''', '''        for i in np.flatnonzero(~np.isclose(val_array, self.get_values())):
+            self._parameters[i].set(val_array[i])
+''', "R12.5", "VectorParameter.set")
+M("c18-domain-compared-by-identity", "C18", LP,
+  '''    non_continuous = [v for v in variables if v.domain != "continuous"]''',
+  '''    non_continuous = [v for v in variables if v.domain is not "continuous"]''', "R18.P", "solve_lp")
+M("c11-block-view-flagged-symmetric", "C11", MATRICES,
+  '''        instance.symmetric = False
+        instance._is_transpose = False
+        instance._variables = [list(row) for row in variables]  # Deep copy''',
+  '''        instance.symmetric = len(variables) == (len(variables[0]) if variables else 0)
+        instance._is_transpose = False
+        instance._variables = [list(row) for row in variables]  # Deep copy''', "R11.4", "MatrixVariable._from_variables", expect="analysis-error")
